@@ -400,10 +400,14 @@ Section Measures.
   Proof. unfold mPw, gett. apply (ftot_pos_ex th0); [exact H1|reflexivity]. Qed.
 End Measures.
 
+Lemma ftot_le {V} (f g : V -> nat) (m : list (N * V)) : (forall v, (f v <= g v)%nat) -> (ftot f m <= ftot g m)%nat.
+Proof. intros H. induction m as [|[k v] r IH]; cbn; [lia|]. specialize (H v). lia. Qed.
 Lemma mPw_le_mWin_fr p fr : (pw_fr p fr <= win_fr p fr)%nat.
 Proof. destruct fr; cbn; lia. Qed.
 Lemma sum_fr_le f g stk : (forall fr, (f fr <= g fr)%nat) -> (sum_fr f stk <= sum_fr g stk)%nat.
 Proof. intros H. induction stk as [|x r IH]; cbn; [lia|]. specialize (H x). lia. Qed.
+Lemma mPw_le_mWin c p : (mPw c p <= mWin c p)%nat.
+Proof. unfold mPw, mWin. apply ftot_le. intros th. apply sum_fr_le. apply mPw_le_mWin_fr. Qed.
 Lemma sum_fr_app f a b : sum_fr f (a ++ b) = (sum_fr f a + sum_fr f b)%nat.
 Proof. induction a; cbn; [reflexivity|]. rewrite IHa. lia. Qed.
 Lemma sum_fr_In f stk fr : In fr stk -> (f fr <= sum_fr f stk)%nat.
